@@ -140,10 +140,13 @@ func addLeaf(t Tree, r *Route, s *Segment, h Handler) (Leaf, error) {
 				return nil, errors.Wrap(err, "add optional leaf to grandparent")
 			}
 		} else {
-			short, err = addLeaf(parent, r, parent.getSegment(), h)
+			// The optional segment is the only segment of the route, the route without
+			// it is the root path "/".
+			short, err = addLeaf(parent, r, &Segment{Pos: s.Pos}, h)
 			if err != nil {
 				return nil, errors.Wrap(err, "add optional leaf to parent")
 			}
+			leaves = t.getLeaves() // The leaf above has been added to the same list.
 		}
 		// Header matches of the route apply to both forms.
 		leaf.setOptionalLeaf(short)
